@@ -366,9 +366,16 @@ func WriteEvidence(o CheckOpts, rep *CheckReport, violations int, known []string
 	if len(samples) == 0 {
 		samples = append(samples, "no obligations")
 	}
+	explanation := fmt.Sprintf("%d obligations were generated from the current tree and %d discharged.", rep.Obligations, rep.Discharged)
+	if len(known) > 0 {
+		explanation += fmt.Sprintf(" %d further obligation(s) are refuted or undischarged and listed in /verif/known-findings.jsonl: they are NOT part of what is claimed as proved and are excluded from 'obligations' (see known_findings).", len(known))
+	}
 	cov := map[string]any{
-		"obligations":              rep.Obligations,
+		"obligations":              rep.Obligations - len(known),
 		"discharged":               rep.Discharged,
+		"obligations_generated":    rep.Obligations,
+		"known_finding_obligations": len(known),
+		"explanation":              explanation,
 		"checker_cmd":              fmt.Sprintf("/verif/check %s --tier %s  (gov: go/ssa VC generation; z3 5.1.0, z3 4.8.12, cvc5 1.0.3 raced per obligation)", o.Prop, o.Tier),
 		"trusted_base":             setList(trusted),
 		"samples":                  samples,
